@@ -142,20 +142,22 @@ def inEvents (cfg : ScanCfg) (id : Bytes) : Bool :=
   | none => true
   | some l => l.contains id
 
+/-- the first test of the `while match:` loop: the key leaves the current match
+    (`key[:matchlen] != match or (since and ts < since) or (until and ts > until)`) -/
+def badKey (cfg : ScanCfg) (m k : Bytes) : Bool :=
+  (k.take m.length != m)
+  || (match cfg.since with | some sn => decide (pySlice k (-37) (-33) < sn) | none => false)
+  || (match cfg.until_ with | some u => decide (u < pySlice k (-37) (-33)) | none => false)
+
 /-- the `while match:` loop of `iterator`, for the current match `m`, over the keys the cursor
     will visit -/
 def walk (cfg : ScanCfg) (m : Bytes) : List Bytes → List Bytes × WalkEnd
   | [] => ([], .nextMatch)                      -- cursor unpositioned: key = b"" ≠ match
   | k :: rest =>
-    let ts := pySlice k (-37) (-33)
-    let bad := (k.take m.length != m)
-      || (match cfg.since with | some sn => decide (ts < sn) | none => false)
-      || (match cfg.until_ with | some u => decide (u < ts) | none => false)
-    if bad then ([], .nextMatch)
+    if badKey cfg m k then ([], .nextMatch)
     else if k < cfg.stop then ([], .endAll)
     else
-      let id := lastN 32 k
-      let out := if inEvents cfg id then [id] else []
+      let out := if inEvents cfg (lastN 32 k) then [lastN 32 k] else []
       match rest with
       | [] => (out, .endAll)                    -- `if not prev(): break`
       | _ :: _ =>
@@ -381,8 +383,13 @@ def planShape (f : Filter) : Option (PlanIndex × List Bytes × List Bytes × Bo
       if kb ≥ kt then some (.multi bi .tags, unopt bm, tagM, overflow bm)
       else some (.multi .tags bi, tagM, unopt bm, overflow bm)
 where
-  sortDesc (l : List (Bytes × Bytes)) : List (Bytes × Bytes) :=
-    (l.toArray.qsort (fun a b => b.1 < a.1 || (b.1 == a.1 && b.2 < a.2))).toList.eraseDups
+  /-- is pair `a` smaller than pair `b` (tuple order)? -/
+  pairLt (a b : Bytes × Bytes) : Bool := decide (a.1 < b.1) || (a.1 == b.1 && decide (a.2 < b.2))
+  insertDesc (a : Bytes × Bytes) : List (Bytes × Bytes) → List (Bytes × Bytes)
+    | [] => [a]
+    | b :: bs => if pairLt b a then a :: b :: bs else b :: insertDesc a bs
+  /-- `sorted(set(pairs), reverse=True)` -/
+  sortDesc (l : List (Bytes × Bytes)) : List (Bytes × Bytes) := (l.foldr insertDesc []).eraseDups
 
 def planFilter (f : Filter) (defaultLimit : Option Nat) : Option Plan :=
   (planShape f).map fun sh =>
@@ -410,20 +417,24 @@ def planCandidates (s : Store) (p : Plan) : Option (List Bytes) :=
     if first.isEmpty then pure [] else
     let second ← scanIndex s p.mats2 f.since f.until_ (some first.eraseDups)
     pure second.eraseDups
+  -- id keys carry no timestamp: `IdIndex.scanner` drops the window (the matcher enforces it)
+  | .ids => scanIndex s p.mats none none none
   | _ => scanIndex s p.mats f.since f.until_ none
 
 /-- `execute_one_plan`: matcher + limit.  Returns the ids of the events delivered, in order.
     An exception anywhere yields the events collected so far — here: none, because the scanner
     is set up before the first yield. -/
+def planHits (s : Store) (f : Filter) (cands : List Bytes) : List Bytes :=
+  -- `matcher` skips ids it has already seen
+  cands.eraseDups.filter fun id => match getEvent s id with | some e => residual f e | none => false
+
 def executePlan (s : Store) (p : Plan) : List Bytes :=
   match planCandidates s p with
   | none => []
   | some cands =>
-    -- `matcher` skips ids it has already seen
-    let hits := cands.eraseDups.filter fun id => match getEvent s id with | some e => residual p.filter e | none => false
     match p.limit with
-    | some n => hits.take n
-    | none => hits
+    | some n => (planHits s p.filter cands).take n
+    | none => planHits s p.filter cands
 
 /-! ### NIP-01 specification of filter matching (what C01/C02/C11/C12 are stated against) -/
 
